@@ -910,3 +910,32 @@ Proof.
     assert (E : th0 = KThr ex_env ex_opts_ni (at_ T) KFresh []) by congruence. rewrite E. intros i. reflexivity.
   - vm_compute. split; [reflexivity|]. split; [reflexivity|]. split; [discriminate | reflexivity].
 Qed.
+
+(** the hypotheses of C18_expired_cert_assets_removed on the same storage: X.key of the long-expired certificate is gone *)
+Example ex_dead_assets_removed :
+  lookup (sto (snd (clean ex_env ex_opts_ni (at_ T) ex_store2))) (s2k "certificates/iss/dead.example/dead.example.key") = None.
+Proof.
+  apply (C18_expired_cert_assets_removed ex_env ex_opts_ni (at_ T) ex_store2 (s2k "certificates/iss")
+           (s2k "certificates/iss/dead.example") (s2k "certificates/iss/dead.example/dead.example.crt") 3 (crt (T - 31 * day)))
+    with (x := s2k "certificates/iss/dead.example/dead.example.key").
+  - repeat split.
+  - reflexivity.
+  - vm_compute. discriminate.
+  - apply crt_wfb_sound. vm_compute. reflexivity.
+  - intros v c. vm_compute. discriminate.
+  - exists (s2k "iss"). split; reflexivity.
+  - exists (s2k "dead.example"). split; reflexivity.
+  - intros v c. vm_compute. discriminate.
+  - intros v c. vm_compute. discriminate.
+  - exists (s2k "dead.example.crt"). split; reflexivity.
+  - reflexivity.
+  - reflexivity.
+  - intros i. reflexivity.
+  - right; left; reflexivity.
+  - vm_compute. reflexivity.
+Qed.
+(** C18_expired_is_past_not_after on a certificate with NotAfter in the middle of a second *)
+Example ex_past_not_after :
+  let c := crt (T - 30 * day + 500000000) in
+  spec_expired T (30 * day) c = false /\ spec_expired (T + second) (30 * day) c = true.
+Proof. vm_compute. split; reflexivity. Qed.
